@@ -19,7 +19,7 @@ Modelled rather than verified (tied by the correspondence check of harness/c12.p
 * `random.choices(values, weights)` for weights with exactly one positive entry (the certain choice);
   any other weight vector is outside the model (`none`);
 * `nx.balanced_tree` (`_tree_edges` queue loop), `nx.disjoint_union` (relabelling by position — the
-  accumulated graph always has keys = positions, see `Proofs.Seq.genGraph_keys`), `Graph.degree` (a
+  accumulated graph always has keys = positions, see `Proofs.Seq.specUnion_keys` / `C12_union_offsets`), `Graph.degree` (a
   self loop counts twice), `json_graph.node_link_data/node_link_graph` + `json.dump/load` (identity on the
   node and edge records; `parse_json` sorts the nodes by key);
 * `MacroFile.gen_graph` (vermouth `make_residue_graph` of a force-field block) is a parameter: the
@@ -231,8 +231,7 @@ def parseFasta (T : Tabs) (t : Text) : Option SGraph :=
 
 /-- vermouth `split_comments(line)`: split at the first `;`, strip both parts -/
 def splitComments (line : Text) : Text × Text :=
-  let (a, b) := line.span (· != ';')
-  (strip a, strip (b.drop 1))
+  (strip (line.takeWhile (· != ';')), strip ((line.dropWhile (· != ';')).drop 1))
 
 /-- the `for idx, line in enumerate(lines)` loop of `parse_ig`: collects clean lines and comments until a
 clean line ends in `1` or `2`; `none` = the `else` branch of the loop (no terminator) -/
@@ -473,17 +472,26 @@ def unlines (lines : List Text) : Text := lines.flatMap (· ++ ['\n'])
 def expand (monomers : List (String × Int)) : List String :=
   monomers.flatMap fun m => List.replicate m.2.toNat m.1
 
+/-- the lines of a file, the last one terminated by a newline (`final = true`) or not -/
+def renderLines (final : Bool) (lines : List Text) : Text :=
+  if final then unlines lines else joinWith '\n' lines
+
 /-- a `.txt` file: every line holds some of the residue names, separated by single spaces -/
-def renderTxt (chunks : List (List String)) : Text :=
-  unlines (chunks.map fun c => joinWith ' ' (c.map String.toList))
+def renderTxt (final : Bool) (chunks : List (List String)) : Text :=
+  renderLines final (chunks.map fun c => joinWith ' ' (c.map String.toList))
 
 /-- a `.fasta` file: header line, then the letters broken into lines -/
-def renderFasta (header : Text) (chunks : List Text) : Text := unlines (header :: chunks)
+def renderFasta (final : Bool) (header : Text) (chunks : List Text) : Text := renderLines final (header :: chunks)
 
 /-- a `.ig` file: comment lines, title line, the letters broken into lines, the terminator after the
 last letter -/
-def renderIg (comments : List Text) (title : Text) (chunks : List Text) (last : Text) (ter : Char) : Text :=
-  unlines (comments ++ [title] ++ chunks ++ [last ++ [ter]])
+def renderIg (final : Bool) (comments : List Text) (title : Text) (chunks : List Text) (last : Text) (ter : Char) :
+    Text :=
+  renderLines final (comments ++ [title] ++ chunks ++ [last ++ [ter]])
+
+/-- a character that can stand in a sequence line of an `.ig` file without being white space, a comment
+sign or a terminator -/
+def SeqChar (c : Char) : Prop := isSpace c = false ∧ c ≠ ';' ∧ c ≠ '1' ∧ c ≠ '2'
 
 /-- residues `names`, keys `0..n-1`, resid `i+1`, edges `(i,i+1)` -/
 def specLinear (names : List String) : RGraph :=
@@ -564,6 +572,13 @@ def specConnectEdge (blocks : List Block) (i j a b : Nat) : Option (Nat × Nat) 
   | some bi, some bj =>
     if a < bi.names.length ∧ b < bj.names.length then some (offset blocks i + a, offset blocks j + b) else none
   | _, _ => none
+
+/-- the items of the parsed connect records `i:j:a-b,c-d` as `(i, j, a, b)` quadruples -/
+def flatConnects (cs : List (Nat × Nat × List (Nat × Nat))) : List (Nat × Nat × Nat × Nat) :=
+  cs.flatMap fun c => c.2.2.map fun ab => (c.1, c.2.1, ab.1, ab.2)
+
+/-- add the edges one after the other (an edge that is already there stays as it is) -/
+def addEdges (g : SGraph) (es : List (Nat × Nat)) : SGraph := es.foldl (fun g e => g.addEdge e.1 e.2) g
 
 /-- the whole gen_seq specification on structured input: layout, connect edges (an edge stated twice is
 one edge), terminal renamings (nodes of degree one of the named block), labels (all nodes of the named
